@@ -440,7 +440,7 @@ def gen_bbe(ctx, exe):
     scen = []
     for X in (A, "::ffff:4.4.4.4", "5.6.7.8", ""):
         c0, c1 = carrier(ids[1], A), carrier(ids[1], X)
-        for cap in (1, 2, 4):
+        for cap in ((1, 2, 4) if ctx.tier == "thorough" else (1, 3)):
             scen += [
                 (cap, [c0, c1, "e0", "a" + ids[1]]),                       # the older of two ends, then the session starts (on the newer)
                 (cap, [c0, c1, "e1", "a" + ids[1]]),                       # the newer ends, the session starts on the older
@@ -457,7 +457,7 @@ def gen_bbe(ctx, exe):
         for cap in (2, 3):
             scen += [
                 (cap, [c0, o, c1, "e0", "a" + ids[2], "a" + ids[1]]),
-                (cap, [o, c0, c1, "e1", "e2", "a" + ids[2], "a" + ids[1]]),
+                (cap, [o, c0, c1, "e0", "e1", "a" + ids[1]]),
                 (cap, [c0, c1, o, "e0", "e1", "a" + ids[2]]),
                 (cap, [o, c0, "a" + ids[2], c1, "e1", "t0", "a" + ids[1], "e0"]),
             ]
